@@ -42,6 +42,7 @@ def run(ctx):
     ctx.rule("R08.3", "STRIDE: writer, size pre-computation and the four walkers advance by 4+size for every element size 4..32")
     ctx.rule("R08.4", "MAGIC: the 8 magic bytes written, compared by rtosc_bundle_p and tested by rtosc_message_ring_length are \"#bundle\\0\"")
     ctx.rule("R08.5", "HEADER: magic at offset 0, time tag at offset 8, first size field at offset 16 - for the writer and every reader")
+    ctx.rule("R08.7", "TERMINATOR: a bundle is followed by a zero size field for every capacity: rtosc_bundle zero-fills its whole destination (memset(buffer,0,len) on the success path) or append_bundle writes a zero size field after the appended element")
     ctx.rule("R08.6", "PREFIX-COPY: the value written as length prefix, the memcpy length and the cursor advance (minus the 4-byte prefix) are the same variable")
 
     # ---- R08.1 (shared machinery with C02)
@@ -303,6 +304,22 @@ def run(ctx):
            what="rtosc_bundle pre-computes a header of %s bytes but writes its first element at offset %s" % (iv, seen.get("elements")))
 
     bundle_measure_obligation(ctx, u, "R08.6")
+    # R08.7
+    fb = u.function("rtosc_bundle")
+    bufp, lenp = u.params(fb)[0]["id"], u.params(fb)[1]["id"]
+    full_clear = False
+    for stmt in A.kids(u.body(fb)):
+        e = A.strip(stmt)
+        if e.get("kind") == "CallExpr" and A.callee_name(e) == "memset":
+            a = A.kids(e)[1:]
+            if A.ref_id(a[0]) == bufp and A.int_literal(a[1]) == 0 and A.ref_id(a[2]) == lenp:
+                full_clear = True       # top-level statement of the function: on the success path
+    fa = us.function("append_bundle")
+    term = any(A.callee_name(c) == "emplace_uint32" and A.int_literal(A.kids(c)[2]) == 0 for c in A.calls_in(us.body(fa))) or \
+        any(A.callee_name(c) == "memset" and A.int_literal(A.kids(c)[2]) == 0 for c in A.calls_in(us.body(fa)))
+    ctx.ob("R08.7", "zero size field after the last element", full_clear or term, site=A.where(fb),
+           detail={"rtosc_bundle_clears_whole_destination": full_clear, "append_bundle_writes_terminator": term},
+           what="neither does rtosc_bundle zero-fill its whole destination nor does append_bundle write a terminating zero size field: stale bytes behind an appended element read as further elements")
 
 
 def bundle_measure_obligation(ctx, u, rule):
